@@ -1512,7 +1512,10 @@ impl DB {
                     allow_write_delay = false;
                 });
             } else if !force_compaction
-                && (self.memtable().approximate_memory_usage() <= self.options.max_memtable_size())
+                && (self.memtable().approximate_memory_usage() <= self.options.max_memtable_size()
+                    // An empty memtable cannot be made any emptier by rotating it. Without this a
+                    // `max_memtable_size` below the footprint of an empty memtable rotates forever.
+                    || self.memtable().is_empty())
             {
                 log::debug!("There is room in the memtable for writes. Proceeding with write.");
                 return Ok(());
